@@ -415,3 +415,16 @@ for _p in ("C17", "C02", "C11"):
     PLANS[_p]["min_counts"]["thorough"].update({"c17.complete.scalars": 1111900})
     PLANS[_p]["rule"] += (" Completion around every scalar value: for each of the 1,111,902 scalar values >= U+0080 (U+FFFD aside) the names `s<c>t` and {`s<c>a`, `s<c>b`} offered by a run-time Autocomplete, "
                           "Tab on `s` in buffers of 1 .. len(c)+3 bytes (the free space ends before, after each octet of, and after the character): the line must be a member of the completion model's set, well-formed, and shown as it is.")
+
+# the behavioural monitors also on the build a user ships (no debug assertions, wrapping arithmetic): a `debug_assert!` with a side
+# effect, an overflow that panics in debug builds and wraps in release, a `cfg!(debug_assertions)` branch
+_REL_RULE = " Release-profile stage: a quarter of the random sessions (and half of the large-buffer ones) again in a build without debug assertions and overflow checks, under the same monitors."
+for _p in ("C01", "C05", "C06", "C10", "C11", "C13", "C15"):
+    PLANS[_p]["stages"].append({"variant": "rel", "workload": _p, "args_quick": ["--scale", "0.25"], "args_thorough": ["--scale", "0.25"]})
+    if _p != "C11":
+        PLANS[_p]["stages"].append({"variant": "rel", "workload": _p + "-large", "args_quick": ["--scale", "0.5"], "args_thorough": ["--scale", "0.5"]})
+    PLANS[_p]["rule"] += _REL_RULE
+for _p, _wls in (("C14", ["C14", "C14-random"]), ("C02", ["C02-cli", "C02-accept"]), ("C04", ["C04-cli"]), ("C07", ["C07-random"]), ("C08", ["C08-random"]), ("C17", ["C17"])):
+    for _w in _wls:
+        PLANS[_p]["stages"].append({"variant": "rel", "workload": _w, "args_quick": ["--scale", "0.25"], "args_thorough": ["--scale", "0.25"]})
+    PLANS[_p]["rule"] += " Release-profile stage: a quarter of the through-the-Cli workloads again in a build without debug assertions and overflow checks."
